@@ -204,6 +204,13 @@ func C01(r *vlib.Run) {
 	var units []*harness.Unit
 	n := 0
 	add := func(p *idl.Program, backend string, opts []string, recurse bool) {
+		for _, o := range opts {
+			if o == "trim_idl" || strings.HasPrefix(o, "trim_idl=") {
+				// trimming is relative to the file given on the command line: the packages of separate
+				// non-recursive runs do not fit together by design
+				recurse = true
+			}
+		}
 		n++
 		units = append(units, &harness.Unit{Name: fmt.Sprintf("u%04d", n), Prog: p, Backend: backend, Opts: opts, Recurse: recurse})
 	}
